@@ -55,7 +55,7 @@ type Evidence struct {
 // Block is one block of a history.
 type Block struct {
 	DT       time.Duration `json:"dt,omitempty"`       // time step; 0 => 1s
-	Proposer int           `json:"proposer,omitempty"` // 0 => first validator of the current set; n>0 => key index n-1; -1 => unknown address
+	Proposer int           `json:"proposer,omitempty"` // 0 => first validator of the current set; n>0 => key index n-1; -1 => unknown address; -2 => empty
 	Missed   []int         `json:"missed,omitempty"`   // key indices of expected signers that missed
 	Evidence []Evidence    `json:"evidence,omitempty"`
 	Events   []Event       `json:"events,omitempty"`
@@ -348,6 +348,8 @@ func (d *Driver) header(b Block) abci.Header {
 		} else {
 			prop = Addr(0)
 		}
+	case b.Proposer == -2:
+		prop = nil // a header without proposer address
 	case b.Proposer < 0:
 		prop = bytes.Repeat([]byte{0xEE}, 20)
 	default:
